@@ -318,9 +318,13 @@ func enumBoundaries(yield func(Case) bool) {
 					// entry size = 17 + digits + payload (+ up to 2 bytes of str header); sizes chosen so that entry1+entry2 = limit+d
 					e1 := len(vh.EncodeSimpleEvent(0, 0, "0", payload(0, first)))
 					rest := limit + d - e1
-					p2 := rest - 17
-					if p2 >= 32 {
-						p2--
+					// payload size whose encoded entry (index "1") is exactly `rest` bytes long
+					p2 := -1
+					for cand := max(0, rest-30); cand <= rest; cand++ {
+						if len(vh.EncodeSimpleEvent(0, 0, "1", payload(1, cand))) == rest {
+							p2 = cand
+							break
+						}
 					}
 					if p2 < 0 {
 						continue
@@ -344,6 +348,30 @@ func enumBoundaries(yield func(Case) bool) {
 				if !yield(c) {
 					return
 				}
+			}
+		}
+	}
+	// datadog: bodies of exactly limit-3 .. limit+3 bytes (the limits are production constants), with 2 and 5 records
+	for _, n := range []int{2, 5} {
+		for d := -3; d <= 3; d++ {
+			// record stream = {"i":"<idx>","m":"<payload>"}; body = '[' + records + (n-1) commas + ']'
+			total := ddMaxBytes + d
+			fixed := 2 + (n - 1)
+			each := (total - fixed) / n
+			c := Case{Mode: "Datadog", Tag: "dd"}
+			used := fixed
+			for i := 0; i < n; i++ {
+				size := each
+				if i == n-1 {
+					size = total - used
+				}
+				empty, _ := json.Marshal(map[string]string{"i": strconv.Itoa(i), "m": ""})
+				c.Ops = append(c.Ops, Op{Size: size - len(empty)})
+				used += size
+			}
+			c.Ops = append(c.Ops, Op{Size: 10})
+			if !yield(c) {
+				return
 			}
 		}
 	}
